@@ -190,6 +190,42 @@ func genStore() {
 	btf := src("internal/mode/static/state/graph/backend_tls_policy.go")
 	m.strs("validateBackendTLSCACertRefBody", btf.stmts(btf.fn("", "validateBackendTLSCACertRef").Body), "validateBackendTLSCACertRef")
 
+	// ---- relevance of the by-name kinds, NginxProxy and NGF policies (footprint frames of NGF.Model.Footprint)
+	scf := src("internal/mode/static/state/graph/secret.go")
+	m.strs("secretResolveBody", scf.stmts(scf.fn("secretResolver", "resolve").Body), "secretResolver.resolve")
+	m.strs("getResolvedSecretsBody", scf.stmts(scf.fn("secretResolver", "getResolvedSecrets").Body), "secretResolver.getResolvedSecrets")
+	cmf := src("internal/mode/static/state/graph/configmaps.go")
+	m.strs("configMapResolveBody", cmf.stmts(cmf.fn("configMapResolver", "resolve").Body), "configMapResolver.resolve")
+	m.strs("getResolvedConfigMapsBody", cmf.stmts(cmf.fn("configMapResolver", "getResolvedConfigMaps").Body), "configMapResolver.getResolvedConfigMaps")
+	npf := src("internal/mode/static/state/graph/nginxproxy.go")
+	m.strs("isNginxProxyReferencedBody", npf.stmts(npf.fn("", "isNginxProxyReferenced").Body), "isNginxProxyReferenced")
+	m.strs("gcReferencesAnyNginxProxyBody", npf.stmts(npf.fn("", "gcReferencesAnyNginxProxy").Body), "gcReferencesAnyNginxProxy")
+	m.strs("buildNginxProxyBody", npf.stmts(npf.fn("", "buildNginxProxy").Body), "buildNginxProxy")
+	m.strs("isNGFPolicyRelevantGraphBody", gr.stmts(gr.fn("Graph", "IsNGFPolicyRelevant").Body), "Graph.IsNGFPolicyRelevant")
+	m.strs("gatewayAPIResourceExistBody", gr.stmts(gr.fn("Graph", "gatewayAPIResourceExist").Body), "Graph.gatewayAPIResourceExist")
+	m.strs("gatewayExistsBody", gr.stmts(gr.fn("", "gatewayExists").Body), "gatewayExists")
+	plf := src("internal/mode/static/state/graph/policies.go")
+	pp := plf.fn("", "processPolicies")
+	var ppGuards, ppRefLoop []string
+	walk(pp.Body, func(n ast.Node) bool {
+		switch x := n.(type) {
+		case *ast.IfStmt:
+			c := plf.text(x.Cond)
+			if c == "len(pols) == 0 || gateways.Winner == nil" || c == "len(targetRefs) == 0" {
+				ppGuards = append(ppGuards, plf.text(x))
+			}
+		case *ast.RangeStmt:
+			if plf.text(x.X) == "policy.GetTargetRefs()" {
+				ppRefLoop = plf.stmts(x.Body)
+				return false
+			}
+		}
+		return true
+	})
+	m.strs("processPoliciesGuards", ppGuards, "processPolicies: when nothing / this policy is not processed")
+	m.strs("processPoliciesRefLoop", ppRefLoop, "processPolicies: body of the loop over policy.GetTargetRefs()")
+	m.strs("refGroupKindBody", plf.stmts(plf.fn("", "refGroupKind").Body), "refGroupKind")
+
 	// ---- handler: the dispatch on changeType
 	hd := src("internal/mode/static/handler.go")
 	heb := hd.fn("eventHandlerImpl", "HandleEventBatch")
@@ -241,6 +277,128 @@ func genStore() {
 	m.strs("handlerBeforeSwitch", pre, "statements of HandleEventBatch before the switch (minus logging/metrics)")
 	m.strs("handlerAfterSwitch", post, "statements of HandleEventBatch after the switch")
 
+	// ---- handler: the object filters (`newEventHandlerImpl`) and the capture step (`parseAndCaptureEvent`)
+	nh := hd.fn("", "newEventHandlerImpl")
+	var fTypes, fNames, fUps, fDels, fCapt, fOther []string
+	walk(nh.Body, func(n ast.Node) bool {
+		cl, ok := n.(*ast.CompositeLit)
+		if !ok || cl.Type == nil || hd.text(cl.Type) != "map[filterKey]objectFilter" {
+			return true
+		}
+		for _, e := range cl.Elts {
+			kv, ok := e.(*ast.KeyValueExpr)
+			if !ok {
+				fail("StoreFacts: unexpected element in the objectFilters literal")
+				continue
+			}
+			key, ok := kv.Key.(*ast.CallExpr)
+			if !ok || hd.text(key.Fun) != "objectFilterKey" || len(key.Args) != 2 {
+				fail("StoreFacts: objectFilters key is not objectFilterKey(type, nsname): %s", hd.text(kv.Key))
+				continue
+			}
+			val, ok := kv.Value.(*ast.CompositeLit)
+			if !ok {
+				fail("StoreFacts: objectFilters value is not a literal: %s", hd.text(kv.Value))
+				continue
+			}
+			fTypes = append(fTypes, hd.text(key.Args[0]))
+			fNames = append(fNames, hd.text(key.Args[1]))
+			up, _ := storeCompositeField(hd, val, "upsert")
+			del, _ := storeCompositeField(hd, val, "delete")
+			capt, _ := storeCompositeField(hd, val, "captureChangeInGraph")
+			if capt == "" {
+				capt = "false" // zero value
+			}
+			fUps, fDels, fCapt = append(fUps, up), append(fDels, del), append(fCapt, capt)
+			var other []string
+			for _, f := range val.Elts {
+				if fkv, ok := f.(*ast.KeyValueExpr); ok {
+					switch hd.text(fkv.Key) {
+					case "upsert", "delete", "captureChangeInGraph":
+					default:
+						other = append(other, hd.text(fkv))
+					}
+				} else {
+					other = append(other, hd.text(f))
+				}
+			}
+			fOther = append(fOther, strings.Join(other, " ; "))
+		}
+		return false
+	})
+	if len(fTypes) == 0 {
+		fail("StoreFacts: objectFilters literal not found in newEventHandlerImpl")
+	}
+	m.strs("filterTypes", fTypes, "objectFilters: the object type of each filter key, in source order")
+	m.strs("filterNames", fNames, "objectFilters: the namespaced name of each filter key")
+	m.strs("filterUpserts", fUps, "objectFilters: upsert callback")
+	m.strs("filterDeletes", fDels, "objectFilters: delete callback")
+	m.strs("filterCapture", fCapt, "objectFilters: captureChangeInGraph (false = field absent)")
+	m.strs("filterOtherFields", fOther, "objectFilters: any other field of the literal (\"\" = none)")
+	var ofType []string
+	for _, d := range hd.f.Decls {
+		gd, ok := d.(*ast.GenDecl)
+		if !ok {
+			continue
+		}
+		for _, sp := range gd.Specs {
+			if ts, ok := sp.(*ast.TypeSpec); ok && ts.Name.Name == "objectFilter" {
+				if st, ok := ts.Type.(*ast.StructType); ok {
+					for _, f := range st.Fields.List {
+						for _, nm := range f.Names {
+							ofType = append(ofType, nm.Name+" "+hd.text(f.Type))
+						}
+					}
+				}
+			}
+		}
+	}
+	m.strs("objectFilterFields", ofType, "fields of type objectFilter")
+	m.strs("objectFilterKeyBody", hd.stmts(hd.fn("", "objectFilterKey").Body), "objectFilterKey")
+	pc := hd.fn("eventHandlerImpl", "parseAndCaptureEvent")
+	var pcCases, pcBodies []string
+	var pcTag string
+	walk(pc.Body, func(n ast.Node) bool {
+		ts, ok := n.(*ast.TypeSwitchStmt)
+		if !ok {
+			return true
+		}
+		pcTag = hd.text(ts.Assign)
+		for _, c := range ts.Body.List {
+			cc := c.(*ast.CaseClause)
+			label := "default"
+			if len(cc.List) > 0 {
+				var ls []string
+				for _, e := range cc.List {
+					ls = append(ls, hd.text(e))
+				}
+				label = strings.Join(ls, ",")
+			}
+			var body []string
+			for _, s := range cc.Body {
+				body = append(body, hd.text(s))
+			}
+			pcCases = append(pcCases, label)
+			pcBodies = append(pcBodies, strings.Join(body, " ; "))
+		}
+		return false
+	})
+	m.str("parseAndCaptureSwitch", pcTag, "the type switch of parseAndCaptureEvent")
+	m.strs("parseAndCaptureCases", pcCases, "cases of the type switch of parseAndCaptureEvent")
+	m.strs("parseAndCaptureBodies", pcBodies, "statements of each case")
+	m.nat("parseAndCaptureTopLevelStmts", len(pc.Body.List), "number of top-level statements of parseAndCaptureEvent (the switch only)")
+	for _, cb := range []string{"nginxGatewayCRDUpsert", "nginxGatewayCRDDelete", "nginxGatewayServiceUpsert", "nginxGatewayServiceDelete"} {
+		var body []string
+		for _, s := range hd.fn("eventHandlerImpl", cb).Body.List {
+			t := hd.text(s)
+			if strings.HasPrefix(t, "logger.") {
+				continue
+			}
+			body = append(body, t)
+		}
+		m.strs("callback_"+cb, body, "eventHandlerImpl."+cb+" (minus logging)")
+	}
+
 	// ---- reconciler: what a delete event carries
 	rc := src("internal/framework/controller/reconciler.go")
 	rec := rc.fn("Reconciler", "Reconcile")
@@ -264,7 +422,7 @@ func genStore() {
 	// ---- manager.go: watch predicates per registered controller
 	mg := src("internal/mode/static/manager.go")
 	reg := mg.fn("", "registerControllers")
-	var wKinds, wNames, wPreds, wConds []string
+	var wKinds, wNames, wPreds, wConds, wNNFilters []string
 	addCtlr := func(el *ast.CompositeLit, cond string) {
 		ot, _ := storeCompositeField(mg, el, "objectType")
 		name, _ := storeCompositeField(mg, el, "name")
@@ -278,10 +436,19 @@ func genStore() {
 				}
 			}
 		}
+		nnf := ""
+		if opts != nil {
+			for _, c := range mg.calls(opts, "controller.WithNamespacedNameFilter") {
+				if len(c.Args) == 1 {
+					nnf = mg.text(c.Args[0])
+				}
+			}
+		}
 		wKinds = append(wKinds, storeKindOf(ot))
 		wNames = append(wNames, name)
 		wPreds = append(wPreds, pred)
 		wConds = append(wConds, cond)
+		wNNFilters = append(wNNFilters, nnf)
 	}
 	var visit func(n ast.Node, cond string)
 	visit = func(n ast.Node, cond string) {
@@ -323,6 +490,14 @@ func genStore() {
 		spec = append(spec, wKinds[i]+"|"+wNames[i]+"|"+wPreds[i])
 	}
 	facts["StoreFacts.watchSpec"] = strings.Join(spec, ";")
+	m.strs("watchNNFilters", wNNFilters, "namespaced-name filter given to each controller (\"\" = none)")
+	var nnSpec []string
+	for i := range wKinds {
+		if wNNFilters[i] != "" {
+			nnSpec = append(nnSpec, wKinds[i]+"|"+wNames[i]+"|"+wConds[i]+"|"+wNNFilters[i])
+		}
+	}
+	facts["StoreFacts.watchNNFilterSpec"] = strings.Join(nnSpec, ";")
 
 	// ---- manager.go: first batch
 	fb := mg.fn("", "prepareFirstEventBatchPreparerArgs")
